@@ -61,6 +61,27 @@ def static_frame_job(prop):
             if re.search(r'\)\s*(const)?\s*;$', decl) and not re.search(r'=\s*', decl):
                 continue
             stat.append((rel, text.count("\n", 0, m.start()) + 1, m.group(1)))
+    # (iv) objects owned through a pointer member: a const member function holds a pointer to a NON-const pointee (unique_ptr<T>), the compiler does not
+    # stop it from calling a mutating member of T.  Every use of such a member inside a const member function of the grid classes must be a call of a
+    # member function that is declared const in the pointee's header (GPU caches and the pointer-to-const acceleration context are in the table above).
+    ptr_uses, ptr_bad = [], []
+    decl_text = X.strip_comments(X.read_source("SparseGrids/tsgDConstructGridGlobal.hpp"))
+    for f in files:
+        rel = os.path.relpath(f, X.REPO)
+        if not re.search(r'tsgGrid\w+\.(cpp|hpp)$', rel):
+            continue
+        text = X.strip_comments(X.read_source(rel))
+        for m in re.finditer(r'\)\s*const\s*(?:override\s*)?\{', text):
+            k = text.index('{', m.start()); e = X.match_close(text, k); body = text[k:e + 1]
+            for u in re.finditer(r'\bdynamic_values\s*->\s*(\w+)\s*(?:<[^>;(]*>)?\s*(\()?', body):
+                where = (rel, text.count("\n", 0, k + u.start()) + 1, u.group(1))
+                ptr_uses.append(where)
+                name = u.group(1)
+                decls = re.findall(r'\b%s\s*\([^;{}()]*\)\s*(const\b)?\s*[;{]' % re.escape(name), decl_text)
+                if u.group(2) is None or not decls or any(d == "" for d in decls):
+                    ptr_bad.append(where)
+    if len(ptr_uses) < 5:
+        raise X.ExtractionBreak("static frame scan found only %d uses of dynamic_values in const member functions: the scan no longer matches the sources" % len(ptr_uses))
     bad_mut = [x for x in mut if x[2] not in MUTABLE_OK]
     if len(mut) < 5:
         raise X.ExtractionBreak("static frame scan found only %d mutable members: the scan no longer matches the sources" % len(mut))
@@ -69,8 +90,9 @@ def static_frame_job(prop):
              '  __CPROVER_assert(%d == 0, "F12s every mutable member of the sparse-grid classes is a listed cache (new: %s)");\n' % (len(bad_mut), lst(bad_mut)) +
              '  __CPROVER_assert(%d == 0, "F12s no const_cast in the sparse-grid sources (found: %s)");\n' % (len(ccast), lst(ccast)) +
              '  __CPROVER_assert(%d == 0, "F12s no function-static or class-static mutable data in the sparse-grid sources (found: %s)");\n' % (len(stat), lst(stat)) +
+             '  __CPROVER_assert(%d == 0, "F12s a const member function reaches the construction data it owns through a pointer only by member functions declared const (offending: %s)");\n' % (len(ptr_bad), lst(ptr_bad)) +
              '  __CPROVER_assert(0, "VACUITY-CANARY");\n}\n')
-    info = {"functions": [], "rules_fired": {"scan-mutable": len(mut), "scan-const_cast": len(ccast), "scan-static-data": len(stat)},
+    info = {"functions": [], "rules_fired": {"scan-mutable": len(mut), "scan-const_cast": len(ccast), "scan-static-data": len(stat), "scan-owned-pointer-uses": len(ptr_uses)},
             "drops": ["this job is a syntactic scan of the sources (supporting static fact), decided by the extractor; CBMC only evaluates the three counts"]}
     return Job("wavelet.static_frame", ctext, "h_static_frame", timeout=60, functions=["SparseGrids/*.hpp, SparseGrids/tsg*.cpp: %d mutable members, %d const_cast, %d static data" % (len(mut), len(ccast), len(stat))], info=info,
                assumed=["C++ const-correctness is enforced by the compiler for everything that is not mutable, const_cast or static"],
